@@ -16,14 +16,21 @@ import reqs
 from leanio import enc_str, enc_list, enc_opt, dec_str
 
 CHAINS = {
-    # name: (handler list, umn, gophermap)
-    "gm+umn": ("[gophermap.BuckGophermapHandler, UMN.UMNDirHandler, file.FileHandler]", True, True),
-    "gm+dir": ("[gophermap.BuckGophermapHandler, dir.DirHandler, file.FileHandler]", False, True),
-    "umn": ("[UMN.UMNDirHandler, file.FileHandler]", True, False),
-    "dir": ("[dir.DirHandler, file.FileHandler]", False, False),
+    # name: (handler list or None for the shipped configuration, chain code for the model:
+    #        U = url.HTMLURLHandler first, G = gophermap handler, M = UMN (else plain) directory handler, H = HTML title handler)
+    "gm+umn": ("[gophermap.BuckGophermapHandler, UMN.UMNDirHandler, file.FileHandler]", "GM"),
+    "gm+dir": ("[gophermap.BuckGophermapHandler, dir.DirHandler, file.FileHandler]", "G"),
+    "umn": ("[UMN.UMNDirHandler, file.FileHandler]", "M"),
+    "dir": ("[dir.DirHandler, file.FileHandler]", ""),
+    "url+gm+umn+html": ("[url.HTMLURLHandler, gophermap.BuckGophermapHandler, UMN.UMNDirHandler, html.HTMLFileTitleHandler, file.FileHandler]", "UGMH"),
+    "url+dir+html": ("[url.HTMLURLHandler, dir.DirHandler, html.HTMLFileTitleHandler, file.FileHandler]", "UH"),
+    # the shipped handler list itself: on trees without mailboxes the Maildir / mbox handlers claim nothing
+    "shipped": (None, "UGMH"),
 }
 
-NAMES = ["a.txt", "b.html", "README", "data.bin", "x.tar.gz", "dump.gz", "sp ace.txt", "q?mark.txt", "am&p.txt", "caf\xe9.txt", "\udcae.txt", "a..b",
+HANDLER_NAME = {"n": None, "gd": "BuckGophermapHandler", "gf": "BuckGophermapHandler", "f": "FileHandler", "u": "HTMLURLHandler", "h": "HTMLFileTitleHandler"}
+
+NAMES = ["a.txt", "b.html", "index.html", "b.html", "README", "data.bin", "x.tar.gz", "dump.gz", "sp ace.txt", "q?mark.txt", "am&p.txt", "caf\xe9.txt", "\udcae.txt", "a..b",
          "dot.", "trail.", "UPPER.TXT", "noext", "x.gophermap", "menu.gophermap", "img.gif", "~tilde", "0", "per%41cent", "plus+.txt", "semi;colon",
          "hash#tag", "pipe|bar", "ti\tab", "lib", "backup~", "core", "z.3d", "k.ask"]
 DIRNAMES = ["sub", "docs", "pics", "d.ir", "sp ace", "caf\xe9", "deep", "a..d", "arch.zip", "x.gophermap"]
@@ -69,6 +76,11 @@ class SiteTree:
             sel = base + "/" + n
             if n.endswith(".gophermap"):
                 data = self._gm(base, made)
+            elif n.endswith(".html"):
+                data = rng.choice([b"<html><head><title>A page title</title></head><body>x</body></html>\n",
+                                   b"<html><head>\n<title>Spread  over\n two lines </title>\n</head></html>\n",
+                                   b"<html><body>no title here</body></html>\n", b"<title>unterminated", b"",
+                                   b"<HTML><HEAD><TITLE>Upper case tags</TITLE></HEAD></HTML>"])
             elif rng.random() < 0.15:
                 data = bytes(rng.randrange(256) for _ in range(rng.randint(0, 40)))
             else:
@@ -158,6 +170,18 @@ class SiteTree:
         st = [enc_str(a) + ";" + enc_str(b) for a, b in sorted(names)]
         return " ".join(g) or "~", " ".join(t) or "~", " ".join(st) or "~"
 
+    def titles(self):
+        """per file selector: does the HTML title handler claim it (strict guess_type says text/html), and the complete title it finds"""
+        import dirmodel
+        out = []
+        for sel, kind, data in self.records:
+            if kind != "f":
+                continue
+            ishtml = mimetypes.guess_type(sel)[0] == "text/html"
+            title = dirmodel.html_title(self.tree.path(sel.encode("utf-8", "surrogateescape"))) if ishtml else None
+            out.append(";".join([enc_str(sel), "T" if ishtml else "F", enc_opt(title)]))
+        return " ".join(out) or "~"
+
     def queries(self, n_extra=12):
         rng = self.rng
         qs = list(self.dirs) + list(self.files)
@@ -168,6 +192,7 @@ class SiteTree:
             b = rng.choice(self.dirs + self.files)
             qs.append(rng.choice([b + "/nope", b + "x", b + "/.", b + "/..", b + "//a.txt", "/" + b.strip("/").upper(), b + "/.cap", b + "/gophermap",
                                   b + ".abstract", b + "/\udcff", b + "/\ud800"]))
+        qs += ["URL:http://example.org/x", "/URL:https://a.b/c?d=e&f", "URL:http://h/\"quoted", "URL:mailto:a@b", "/URL:gopher://h:70/1/a..b//c"]
         seen, out = set(), []
         for q in qs:
             if q not in seen and "\n" not in q and "\r" not in q and "\t" not in q:      # TAB, CR, LF delimit a Gopher request
@@ -180,9 +205,9 @@ class SiteTree:
 
 
 def model_line(st, cfg, chain, view, gplus, queries):
-    _, umn, gm = CHAINS[chain]
+    _, code = CHAINS[chain]
     g, t, s = st.tables(cfg)
-    return "\t".join(["site", "T" if umn else "F", "T" if gm else "F", view, "T" if gplus else "F", enc_str(listing.SRV[0]), str(listing.SRV[1]),
+    return "\t".join(["site", code or "-", st.titles(), view, "T" if gplus else "F", enc_str(listing.SRV[0]), str(listing.SRV[1]),
                       "T" if cfg.getboolean("pygopherd", "abstract_headers") else "F", enc_str(cfg.get("pygopherd", "abstract_entries")),
                       st.encode(), g, t, s, enc_list(queries)])
 
@@ -203,7 +228,8 @@ def compare(ctx, res, n_trees, tag):
         st = SiteTree(rng)
         try:
             for chain in rng.sample(sorted(CHAINS), 2):
-                hl, umn, gm = CHAINS[chain]
+                hl, code = CHAINS[chain]
+                umn = "M" in code
                 cfg = pyg.make_config(st.tree.root, hl, **{"handlers.dir.DirHandler|cachetime": "0"})
                 view, gplus = rng.choice([("gopher", False), ("gopher", False), ("gplusdir", True), ("http", False), ("gemini", False)])
                 qs = st.queries()
@@ -227,8 +253,7 @@ def compare(ctx, res, n_trees, tag):
                     cls, _ = reqs.classify("gopher", r.out)
                     inp = {"chain": chain, "selector": q, "view": view, "tree_seed": f"{ctx.pid}:{ctx.seed}:{ti}"}
                     real_handler = r.handler
-                    want_h = {"n": None, "gd": "BuckGophermapHandler", "gf": "BuckGophermapHandler", "d": "UMNDirHandler" if umn else "DirHandler",
-                              "f": "FileHandler"}[hcls]
+                    want_h = ("UMNDirHandler" if umn else "DirHandler") if hcls == "d" else HANDLER_NAME[hcls]
                     res.count(f"site:{chain}:{hcls}")
                     if kind == "N":
                         if cls != "notfound":
@@ -239,7 +264,12 @@ def compare(ctx, res, n_trees, tag):
                         continue
                     if real_handler != want_h:
                         res.disagree(tag + ".site-dispatch", inp, want_h, real_handler)
-                    if kind.startswith("D:"):
+                    if kind.startswith("G:"):
+                        text = dec_str(kind[2:]).encode("utf-8", "surrogateescape")
+                        res.nontrivial.add(("site-generated", ti, chain, q))
+                        if r.out != text:
+                            res.disagree(tag + ".site-generated-page", inp, text[:120], (r.out or b"")[:120])
+                    elif kind.startswith("D:"):
                         data = dec_str(kind[2:]).encode("latin-1")
                         res.nontrivial.add(("site-doc", ti, chain, q))
                         if r.out != data:
@@ -272,7 +302,7 @@ def compare_answers(ctx, res, n_trees, tag):
         st = SiteTree(rng)
         try:
             chain = rng.choice(sorted(CHAINS))
-            hl, umn, gm = CHAINS[chain]
+            hl, code = CHAINS[chain]
             cfg = pyg.make_config(st.tree.root, hl, **{"handlers.dir.DirHandler|cachetime": "0"})
             if cfg.has_option("protocols.http.HTTPProtocol", "pagetopper"):
                 cfg.remove_option("protocols.http.HTTPProtocol", "pagetopper")      # administrator's markup: not modelled
@@ -303,7 +333,7 @@ def compare_answers(ctx, res, n_trees, tag):
                 enc.append(";".join(["T" if reqs.TLS[p] else "F", enc_str(line.decode("utf-8", "surrogateescape")), enc_list(rl)]))
             if not enc:
                 continue
-            linem = "\t".join(["answer", "T" if umn else "F", "T" if gm else "F", enc_str(listing.SRV[0]), str(listing.SRV[1]),
+            linem = "\t".join(["answer", code or "-", st.titles(), enc_str(listing.SRV[0]), str(listing.SRV[1]),
                                "T" if cfg.getboolean("pygopherd", "abstract_headers") else "F", enc_str(cfg.get("pygopherd", "abstract_entries")),
                                enc_opt(foot["gemini"]), enc_opt(foot["spartan"]), enc_list(shipped), st.encode(), g, t, s_tab, " ".join(enc)])
             out = ctx.driver.run([linem])[0]
